@@ -621,6 +621,18 @@ func (g *gen) buildLayout() {
 	}
 }
 
+// the wallet path is missing or a regular file: the harness cannot create anything below it
+// without first changing the layout (materialise would mkdir -p, which the file-system model of
+// Wallet/Run.v does not mirror)
+func (g *gen) walletPathIsFile() bool {
+	for _, e := range g.c.FS {
+		if e.Path == g.c.Conf.Path && e.Kind == kDir {
+			return false
+		}
+	}
+	return true
+}
+
 func (g *gen) fromRaw(a []byte) ([]byte, []byte) {
 	h := hex.EncodeToString(a)
 	r := g.r
@@ -797,10 +809,21 @@ func (g *gen) buildHistory() {
 			c.Hist = append(c.Hist, &hop{Op: "refresh"})
 		case x < 97:
 			ms := g.mutation()
+			if g.walletPathIsFile() {
+				// nothing can be created below a wallet path that is a regular file (the write would
+				// fail in the harness itself, not in the wallet): keep only the writes elsewhere
+				kept := ms[:0]
+				for _, m := range ms {
+					if m.Op != "write" || !strings.HasPrefix(m.Path, c.Conf.Path+"/") {
+						kept = append(kept, m)
+					}
+				}
+				ms = kept
+			}
 			for _, m := range ms {
 				c.Hist = append(c.Hist, m)
 			}
-			if len(ms) > 0 && c.Listener {
+			if len(ms) > 0 && c.Listener && !g.walletPathIsFile() {
 				// barrier: a fresh matching file; the runner waits until the listener has reported it
 				fresh := r.Bytes(20)
 				c.Hist = append(c.Hist, &hop{Op: "write", Path: c.Conf.Path + "/" + g.goodName(hex.EncodeToString(fresh)),
